@@ -40,6 +40,15 @@ def segChunks : Bytes → List (List Nat) → List Go.Stream
 /-- What the connection loop of the source does after a failed read (T2 fact). -/
 def srcResumes : Bool := Gen.Facts.c16ReadErrEndsConn != some true
 
+/-- Does the stream deadline of ServeDoQ bound the reply write (T2 fact)? -/
+def srcDoqWriteBounded : Bool := Gen.Facts.c16DoqStreamDeadlineReadOnly != some true
+
+/-- `t:n,t:n`: flow-control grants. -/
+def grants? (s : String) : Option Grants :=
+  (s.splitOn ",").mapM (fun g => match g.splitOn ":" with
+    | [t, n] => do pure ((← t.toNat?), (← n.toNat?))
+    | _ => none)
+
 def showErr : Go.ReadErr → String
   | .eof => "err:eof" | .unexpectedEOF => "err:unexpectedEOF" | .tooSmall => "err:tooSmall"
 
@@ -85,6 +94,12 @@ def handle : List String → String
       let handled := serve srcResumes (b.length + ss.length + 2) (segChunks b ss)
       s!"foreign={(handled.filter (fun m => !sent.contains m)).length}"
     | _, _ => "bad-op"
+  | ["doq", limit, tHandler, grants, reply] =>
+    -- one ServeDoQ stream: what is on the stream before FIN when the stream deadline is what the regenerated fact
+    -- says it is (read-only / read+write)
+    match limit.toNat?, tHandler.toNat?, grants? grants, bytes? reply with
+    | some l, some t, some gs, some m => "delivered " ++ summary (doqStream srcDoqWriteBounded l t gs m)
+    | _, _, _, _ => "bad-op"
   | _ => "bad-op"
 
 end Driver.C16
